@@ -31,7 +31,7 @@ var diskTablesOpened int64
 
 const DiskTableBudget = 2500
 
-func NoteDiskTables(n int) { atomic.AddInt64(&diskTablesOpened, int64(n)) }
+func NoteDiskTables(n int)      { atomic.AddInt64(&diskTablesOpened, int64(n)) }
 func DiskEngineAvailable() bool { return atomic.LoadInt64(&diskTablesOpened) < DiskTableBudget }
 
 // RPCTimeout is the generous watchdog on every request; hitting it is reported as a hang.
@@ -340,10 +340,10 @@ func RowSetToProto(rs model.RowSet) *btpb.RowSet {
 
 // ReadResult is a decoded ReadRows stream.
 type ReadResult struct {
-	Rows     []model.Row
-	Code     codes.Code
-	Msg      string
-	Messages int    // response messages received
+	Rows      []model.Row
+	Code      codes.Code
+	Msg       string
+	Messages  int    // response messages received
 	Malformed string // first breach of the chunk-stream rules ("" if well formed)
 }
 
